@@ -119,6 +119,10 @@ def describe_key(fn, k, st):
             return v["n"]
         if ("ev", "ord", k) in st:
             return "<ord>"
+        # a local still holding the integer decoded from a parameter (bn_read_bin(eb, sig, sig_len) and no write since)
+        for a in st:
+            if a[0] == "ev" and a[1] == "dec" and a[2] == k:
+                return "<dec:%s>" % a[3]
         return None
     if t == "m":
         b = describe_key(fn, k[1], st)
@@ -181,6 +185,11 @@ def make_gen(fn):
         for c in ir.calls_in(fn, node.el.e):
             if c[1] and ORD_GETTERS.match(c[1]) and c[2]:
                 out.append(("ev", "ord", key(fn, c[2][0])))
+            if c[1] == "bn_read_bin" and len(c[2]) == 3:
+                dst, src = key(fn, c[2][0]), key(fn, c[2][1])
+                if isinstance(dst, tuple) and dst[0] == "v" and fn.vars[dst[1]]["k"] != "p" \
+                        and isinstance(src, tuple) and src[0] == "v" and fn.vars[src[1]]["k"] == "p":
+                    out.append(("ev", "dec", dst, fn.vars[src[1]]["n"]))
         return out
     return gen
 
@@ -218,7 +227,17 @@ def guards_at_accepts(ctx, prog, fn):
         and any(narrowing_calls(fn, el.e, vv) for el in fn.all_elements())
     if style_b:
         return vv, guards_at_return(ctx, prog, fn, g, vv)
-    F = Facts(prog, g, gen=make_gen(fn), mark_thrown=False)
+    def edge_gen(node, label, atoms):
+        # a test of the integer decoded from a parameter is remembered as an event: the local is usually overwritten by
+        # the computation that follows (eb = eb^e mod n), the fact that the *decoded* value passed the test stays
+        st = engines.CURRENT.edge_state if engines.CURRENT is not None else frozenset()
+        out = []
+        for a in atoms:
+            d = describe_atom(fn, a, st)
+            if d is not None and "<dec:" in d[0]:
+                out.append(("ev", "hist", d))
+        return out
+    F = Facts(prog, g, gen=make_gen(fn), mark_thrown=False, edge_gen=edge_gen)
     out = []
     groups = case_groups(fn, g)
     for n, txt in accept_events(fn, g, vv, accept_is_zero(fn)):
@@ -227,8 +246,11 @@ def guards_at_accepts(ctx, prog, fn):
             continue
         descs = set()
         for a in s:
+            if a[0] == "ev" and a[1] == "hist":
+                descs.add(a[2])
+                continue
             d = describe_atom(fn, a, s)
-            if d is not None:
+            if d is not None and "<dec:" not in d[0]:
                 descs.add(d)
         out.append((n, txt, descs, groups.get(n.id, "")))
     return vv, out
@@ -607,9 +629,12 @@ def analyse(ctx, prog, chk, table=None):
 def selfcheck(ctx, prog, chk):
     # every miniature is a variant of one verifier, cp_st_ver(r, s, msg, len, q), checked against one row
     row = {"guards": [["bn_sign(r)", "==", 0], ["bn_is_zero(r)", "==", 0], ["bn_cmp(r,<ord>)", "<", 0], ["ep_on_curve(q)", "!=", 0]]}
+    # ... and of cp_sd_ver(sig, sig_len, msg, len, n), whose signature representative is decoded into a local
+    row_dec = {"guards": [["bn_cmp(<dec:sig>,n)", "==", -1]]}
     table = {}
     for fn in verifiers(prog):
-        table[fn.name.split("__")[-1]] = row
+        base = fn.name.split("__")[-1]
+        table[base] = row_dec if base == "cp_sd_ver" else row
     analyse(ctx, prog, chk, table)
 
 
